@@ -192,8 +192,10 @@ def Enabled (s : MState) : Ev → Prop
   | .add a n => findPeer s a = none ∧ n = s.statuses.length
   | .pieceDone a _ => ∃ p y, findPeer s a = some p ∧ p.rx = some y
   | .pieceCancel a _ => ∃ p y, findPeer s a = some p ∧ p.rx = some y ∧ s.statuses.getD y .missing = .have
-  | .have a i => (∃ p, findPeer s a = some p) ∧ i < s.statuses.length
-  | .bitfield a bits _ => (∃ p, findPeer s a = some p) ∧ bits.length = s.statuses.length
+  | .have a i => (∃ p, findPeer s a = some p) ∧ i < s.statuses.length ∧
+      ∀ p, findPeer s a = some p → p.pieces.length = s.statuses.length
+  | .bitfield a bits _ => (∃ p, findPeer s a = some p) ∧ bits.length = s.statuses.length ∧
+      ∀ p, findPeer s a = some p → p.pieces.length = s.statuses.length
   | .kill _ => True
   | .choke a => ∃ p, findPeer s a = some p
   | .unchoke a _ => ∃ p, findPeer s a = some p
